@@ -62,6 +62,10 @@ CHECKS["C06"] = dict(level="exploration", ref="DESIGN.md §5 C06",
    technique="model-based generated container histories (Hypothesis) on three drivers; after every step an independent raw-tree auditor re-derives objects/links/schema and package records and checks the bijection and bookkeeping invariants, objects vs reference model, user tree vs plain reference tree; live vs rebuilt index compared at every reopen",
    text="Generated search with the full invariant evaluated after every successful or refused operation. The auditor reads only the unwrapped tree (layout re-derived from the property's anchors), so it is independent of the TOC classes. Bounded history length (30 quick / 60 thorough) and a pool of 11 schema accesses.",
    note=TB + "; a libhdf5 2.0.0 H5Ocopy bug with absolute destinations is avoided by construction (receiver switched to the root) and, if still hit, the case is counted as excluded")
+CHECKS["C09"] = dict(level="exploration", ref="DESIGN.md §5 C09",
+   technique="three-way differential execution of Hypothesis-generated container histories (h5py.File vs IH5Record vs IH5MFRecord) with generated patch boundaries and reopen points; per-step success parity and full user-view comparison (data, attributes, metadata JSON, schemas, query result sets); no reference model decides",
+   text="Pure differential generated search: a shared misconception of harness and code cannot hide a divergence because no model is consulted. Bounded history length and a fixed query battery; sampling.",
+   note=TB + "; h5py.File behaviour is taken as given (one libhdf5 2.0 copy bug is avoided by construction)")
 NOT_YET = {}
 def main():
     props = [json.loads(l) for l in open(os.path.join(HERE, "properties.jsonl"))]
